@@ -24,7 +24,10 @@ CONSTANTS N,         \* modules 1..N
           WithInit,  \* explore the init phase
           CanonInit, \* ... only from one representative per isomorphism class of DAGs (the actions
                      \* of the init phase do not look at module identities: symmetry reduction)
-          EmitCases  \* print one JSON case per DAG (gen direction)
+          EmitCases, \* print one JSON case per DAG (gen direction)
+          SelfEdgeChecked  \* TRUE: the specification; FALSE: modules.go before dskit fix 7655698, whose cycle
+                           \* check compared the module only with the dependencies OF the new dependency
+                           \* (self-test config: TLC must refute CycleRejected / GraphAcyclic, finding F3)
 
 Mod  == 1..N
 None == 0
@@ -50,7 +53,7 @@ Init == /\ deps = {} /\ tr = [m \in Mod |-> {}] /\ last = [a |-> None, B |-> {},
 (* ---- build phase ------------------------------------------------------ *)
 AddDependency(a, B) ==
     /\ phase = "build"
-    /\ LET ok == \A b \in B : ~ClosesCycle(deps, a, b)
+    /\ LET ok == \A b \in B : IF SelfEdgeChecked THEN ~ClosesCycle(deps, a, b) ELSE a \notin TransOf(deps, b)
        IN  /\ deps' = IF ok THEN deps \cup {<<a, b>> : b \in B} ELSE deps
            /\ tr' = TransFn(deps', Mod)
            /\ last' = [a |-> a, B |-> B, ok |-> ok]
